@@ -1232,4 +1232,116 @@ theorem departuresRun_append (s : State) (R : Remote) (es fs : List TEv) :
   | nil => simp [departuresRun, run]
   | cons e es ih => simp only [List.cons_append, departuresRun, run, ih, Nat.add_assoc]
 
+-- the wire, over runs ------------------------------------------------------------------------------
+
+/-- is `ev` a retransmission timer of `R`? -/
+def isRetransmitOf (R : Remote) : Ev → Bool
+  | .fireRetransmit r _ => r == R
+  | _ => false
+
+theorem not_isRetransmitOf {R : Remote} {ev : Ev} (h : isRetransmitOf R ev = false) :
+    ∀ mid, ev ≠ .fireRetransmit R mid := by
+  intro mid he
+  subst he
+  simp [isRetransmitOf] at h
+
+/-- the confirmable messages put on the wire to `R` during a run by events other than `R`'s
+retransmission timers — the *first* transmissions —, in wire order -/
+def firstSendsRun (s : State) (R : Remote) : List TEv → List Wire
+  | [] => []
+  | e :: es =>
+    (if isRetransmitOf R e.ev then [] else conSends R (step s e).2) ++
+      firstSendsRun (step s e).1 R es
+
+theorem step_Spec {s : State} (hi : Inv s) (hq : QInv s) (e : TEv) (R : Remote)
+    (hne : ∀ mid, e.ev ≠ .fireRetransmit R mid) :
+    Spec (pending s R) (pending (step s e).1 R) (conSends R (step s e).2)
+      (departures s R e.ev) (arrivals s R e.ev) := by
+  have h := handle_Spec (s := setNow s e.time) (Inv_of_fields hi rfl rfl rfl)
+    (QInv_of_tables hq rfl rfl) e.ev R hne
+  rw [arrivals_setNow, departures_setNow] at h
+  exact h
+
+theorem drop_sublist_drop {α} (l : List α) {m n : Nat} (h : m ≤ n) :
+    (l.drop n).Sublist (l.drop m) := by
+  have : l.drop n = (l.drop m).drop (n - m) := by rw [List.drop_drop]; congr 1; omega
+  rw [this]; exact List.drop_sublist _ _
+
+theorem head_toList_append_drop {α} (l : List α) : l.head?.toList ++ l.drop 1 = l := by
+  cases l <;> simp
+
+theorem sublist_step {α} (Q a A rest f : List α) (k : Nat)
+    (hf : f = [] ∨ ((Q = [] ∨ k ≠ 0) ∧ f = (Q.drop k ++ a).head?.toList))
+    (ih : rest.Sublist ((Q.drop k ++ a).drop 1 ++ A)) :
+    (f ++ rest).Sublist (Q.drop 1 ++ (a ++ A)) := by
+  rcases hf with rfl | ⟨hc, rfl⟩
+  · rw [List.nil_append, ← List.append_assoc]
+    refine ih.trans (List.Sublist.append ?_ (List.Sublist.refl _))
+    rw [List.drop_append, List.drop_drop]
+    exact List.Sublist.append (drop_sublist_drop Q (by omega)) (List.drop_sublist _ _)
+  · have h1 : ((Q.drop k ++ a).head?.toList ++ rest).Sublist (Q.drop k ++ a ++ A) := by
+      have := List.Sublist.append (List.Sublist.refl (Q.drop k ++ a).head?.toList) ih
+      rwa [← List.append_assoc, head_toList_append_drop] at this
+    refine h1.trans ?_
+    rw [List.append_assoc]
+    refine List.Sublist.append ?_ (List.Sublist.refl _)
+    rcases hc with rfl | hk
+    · simp
+    · exact drop_sublist_drop Q (by omega)
+
+/-- **FIFO on the wire, over every run**: the first transmissions to `R` during a run, in wire
+order, are a subsequence of the messages that were waiting behind the head at the start followed by
+the arrivals for `R` during the run, in queue / arrival order. -/
+theorem run_firstSends_sublist {s : State} (hi : Inv s) (hq : QInv s) (es : List TEv) (R : Remote) :
+    (firstSendsRun s R es).Sublist ((pending s R).drop 1 ++ arrivalsRun s R es) := by
+  induction es generalizing s with
+  | nil => simp [firstSendsRun]
+  | cons e es ih =>
+    have ih' := ih (step_Inv hi e) (step_QInv hq e)
+    have hs := step_Fifo hi hq e R
+    simp only [firstSendsRun, arrivalsRun]
+    rw [hs] at ih'
+    apply sublist_step _ _ _ _ _ (departures s R e.ev) ?_ ih'
+    cases hr : isRetransmitOf R e.ev with
+    | true => exact Or.inl (by simp)
+    | false =>
+      have hsp := (step_Spec hi hq e R (not_isRetransmitOf hr)).2
+      rw [hs] at hsp
+      simp only [Bool.false_eq_true, ↓reduceIte]
+      by_cases hc : pending s R = [] ∨ departures s R e.ev ≠ 0
+      · exact Or.inr ⟨hc, by rw [hsp, if_pos hc]⟩
+      · exact Or.inl (by rw [hsp, if_neg hc])
+
+-- the bare shape ---------------------------------------------------------------------------------
+
+/-- the bare queue shape: something is dropped at the head, something is appended at the tail -/
+def FifoStep (p p' : List Wire) : Prop := ∃ k xs, p' = p.drop k ++ xs
+
+theorem FifoStep.refl (p : List Wire) : FifoStep p p := ⟨0, [], by simp⟩
+
+theorem FifoStep.trans {p p' p'' : List Wire} (h1 : FifoStep p p') (h2 : FifoStep p' p'') :
+    FifoStep p p'' := by
+  obtain ⟨k, xs, rfl⟩ := h1
+  obtain ⟨k', xs', rfl⟩ := h2
+  exact ⟨k + k', xs.drop (k' - (p.drop k).length) ++ xs', by
+    rw [List.drop_append, List.drop_drop, List.append_assoc]⟩
+
+/-- On its own this shape says nothing — every pair of lists has it (drop everything, append the
+new list) —, and its transitive closure even less.  The theorems above therefore pin `k` and `xs`
+to the event (`departures`, `arrivals`); the two below are kept as the weakest corollaries. -/
+theorem FifoStep_trivial (p p' : List Wire) : FifoStep p p' := ⟨p.length, p', by simp⟩
+
+theorem handle_FifoStep {s : State} (hi : Inv s) (hq : QInv s) (ev : Ev) (R : Remote) :
+    FifoStep (pending s R) (pending (handle s ev).1 R) :=
+  ⟨departures s R ev, arrivals s R ev, handle_Fifo hi hq ev R⟩
+
+theorem run_FifoStep {s : State} (hi : Inv s) (hq : QInv s) (es : List TEv) (R : Remote) :
+    FifoStep (pending s R) (pending (run s es).1 R) := by
+  induction es generalizing s with
+  | nil => exact FifoStep.refl _
+  | cons e es ih =>
+    simp only [run]
+    refine FifoStep.trans ?_ (ih (step_Inv hi e) (step_QInv hq e))
+    exact ⟨departures s R e.ev, arrivals s R e.ev, step_Fifo hi hq e R⟩
+
 end Aiocoap.MsgLayer
